@@ -222,6 +222,11 @@ func (x *Exec) Advance(d time.Duration) {
 	point(&pendingOp{kind: OpAdvance, obj: "clock", advance: d, write: true})
 }
 
+// AdvanceWhen is Advance that is only enabled while cond() holds (e.g. "no operation in flight").
+func (x *Exec) AdvanceWhen(d time.Duration, cond func() bool) {
+	point(&pendingOp{kind: OpAdvance, obj: "clock", advance: d, write: true, enabled: cond})
+}
+
 // Yield is an always-enabled custom choice point for harness threads.
 func (x *Exec) Yield(label string) { Point(OpCustom, label, nil) }
 
